@@ -13,19 +13,50 @@ structure SGraph where
 inductive W where
   | node (id : Nat) (labels : List Nat)
   | edge (id : Nat) (r : EdgeRec)
+  | setProp (id key : Nat) (v : String)
+  | addLabel (id l : Nat)
+  | remLabel (id l : Nat)
+  | delNode (id : Nat)                 -- DETACH DELETE: the node and every incident edge
+  | delEdge (id : Nat)
 
 def SGraph.apply (g : SGraph) : W → SGraph
   | .node id ls => { g with nodes := aset g.nodes id (ls.foldl sinsert [], []) }
   | .edge id r => { g with edges := aset g.edges id r }
+  | .setProp id key v => match aget g.nodes id with
+    | some (ls, ps) => { g with nodes := aset g.nodes id (ls, aset ps key v) }
+    | none => g
+  | .addLabel id l => match aget g.nodes id with
+    | some (ls, ps) => { g with nodes := aset g.nodes id (sinsert ls l, ps) }
+    | none => g
+  | .remLabel id l => match aget g.nodes id with
+    | some (ls, ps) => { g with nodes := aset g.nodes id (serase ls l, ps) }
+    | none => g
+  | .delNode id => { nodes := aerase g.nodes id,
+                     edges := g.edges.filter (fun kv => kv.2.src != id && kv.2.dst != id) }
+  | .delEdge id => { g with edges := aerase g.edges id }
+
+/-- the entities a write modifies (not the ones it creates): node `2·id`, edge `2·id+1` -/
+def W.modifies (g : SGraph) : W → List Nat
+  | .node _ _ | .edge _ _ => []
+  | .setProp id _ _ | .addLabel id _ | .remLabel id _ => [2 * id]
+  | .delNode id => 2 * id :: (g.edges.filter (fun kv => kv.2.src == id || kv.2.dst == id)).map (fun kv => 2 * kv.1 + 1)
+  | .delEdge id => [2 * id + 1]
 
 structure STx where
   snap : SGraph
   writes : List W := []
+  beginSeq : Nat := 0
+  modified : List Nat := []            -- entities modified in place (for first-committer-wins)
+  touchedKeys : List Nat := []         -- … including those only the implementation's model matched (ghost)
 
 structure St where
   w : World := {}
   committed : SGraph := {}
   txs : AList (Option STx) := []        -- session ↦ open transaction of the oracle
+  seq : Nat := 0                        -- number of commits so far (auto-commits included)
+  commits : List (Nat × List Nat) := [] -- (sequence number, entities modified) of every commit
+  touched : List Nat := []              -- entities some query mutated in place (ghost, for signatures)
+  abortedTouched : List Nat := []       -- … by a transaction that was rolled back afterwards
 
 def St.view (z : St) (k : Nat) : SGraph :=
   match (aget z.txs k).getD none with
@@ -48,10 +79,51 @@ def classifyExtra (z : St) (k id : Nat) : String :=
       | none => "extra-entity"
   | _ => "extra-entity"
 
+/-- signature of a deviation on an entity that some query mutated in place: properties, labels and
+deletion marks are single-version, so the change is visible to everybody at once and survives a
+rollback. Which of the two it is decides the property it is charged to (C02 / C01). -/
+def inPlaceSig (z : St) (key : Nat) : String :=
+  if z.abortedTouched.contains key then "rolled-back-change-persists" else "in-place-change-outside-transaction"
+
 def sigIds (z : St) (k : Nat) (m s : List Nat) : String :=
-  match m.filter (fun x => !s.contains x) with
-  | x :: _ => classifyExtra z k x
-  | [] => if (s.filter (fun x => !m.contains x)).isEmpty then "-" else "committed-entity-not-enumerated"
+  let extra := m.filter (fun x => !s.contains x)
+  let missing := s.filter (fun x => !m.contains x)
+  match (extra ++ missing).find? (fun x => z.touched.contains (2 * x)) with
+  | some x => inPlaceSig z (2 * x)
+  | none =>
+    match extra with
+    | x :: _ => classifyExtra z k x
+    | [] => if missing.isEmpty then "-" else "committed-entity-not-enumerated"
+
+def mk' (m s sig : String) : Proto.Out := { model := m, spec := s, sig := if m == s then "-" else sig }
+
+/-- the oracle performs write `w` for session `k` (in its transaction, or as an auto-commit) -/
+def St.recordWrite (z : St) (k : Nat) (w : W) : St :=
+  let mods := w.modifies (z.view k)
+  match (aget z.txs k).getD none with
+  | some t => { z with txs := aset z.txs k (some { t with writes := t.writes ++ [w], modified := t.modified ++ mods,
+                                                          touchedKeys := t.touchedKeys ++ mods }),
+                       touched := z.touched ++ mods }
+  | none => { z with committed := z.committed.apply w, seq := z.seq + 1, commits := (z.seq + 1, mods) :: z.commits,
+                     touched := z.touched ++ mods }
+
+/-- ghost bookkeeping when the model of the implementation matched (and mutated in place) -/
+def St.touch (z : St) (k key : Nat) : St :=
+  let z1 := { z with touched := z.touched ++ [key] }
+  match (aget z.txs k).getD none with
+  | some t => { z1 with txs := aset z1.txs k (some { t with touchedKeys := t.touchedKeys ++ [key] }) }
+  | none => z1
+
+/-- a mutation `MATCH … WHERE id(x) = target <clause>`: `mm` = the implementation's model matched,
+`sm` = the oracle's view of session `k` holds the target. -/
+def inPlaceOp (z : St) (k key : Nat) (w' : World) (mm sm : Bool) (wr : W) (mOut : String) : St × Proto.Out :=
+  let z1 := { z with w := w' }
+  let z2 := if sm then z1.recordWrite k wr else z1
+  let z3 := if mm then z2.touch k key else z2
+  let sig := if z.touched.contains key then inPlaceSig z key
+             else if mm && !sm then (if key % 2 == 0 then classifyExtra z k (key / 2) else "edge-visible-outside-snapshot")
+             else "committed-entity-not-enumerated"
+  (z3, mk' (if mm then mOut else "norows") (if sm then mOut else "norows") sig)
 
 def rStr : R → String
   | .ok => "ok"
@@ -63,7 +135,6 @@ def parseIso : String → Option Iso
   | "ser" => some .serializable
   | _ => none
 
-def mk' (m s sig : String) : Proto.Out := { model := m, spec := s, sig := if m == s then "-" else sig }
 
 def showEdge : Option (EdgeRec × AList String) → String
   | none => "none"
@@ -77,23 +148,38 @@ def handle (z : St) (args : List String) : Option (St × Proto.Out) :=
     let iso ← parseIso iso
     let (w', r) := z.w.begin k iso
     let had := ((aget z.txs k).getD none).isSome
-    let txs' := if had then z.txs else aset z.txs k (some { snap := z.committed })
+    let txs' := if had then z.txs else aset z.txs k (some { snap := z.committed, beginSeq := z.seq })
     pure ({ z with w := w', txs := txs' }, mk' (rStr r) (if had then "err:invalid" else "ok") "begin-result")
   | ["commit", k] => do
     let k ← k.toNat?
     let (w', r) := z.w.commit k
     let st := (aget z.txs k).getD none
-    -- the oracle accepts every commit of an open transaction (these histories record no conflicts)
-    let sr := if st.isSome then "ok" else "err:invalid"
+    -- first committer wins: refused when a transaction that committed after this one began modified
+    -- an entity this one modified too; creations never conflict
+    let conflict := match st with
+      | some t => z.commits.any (fun c => c.1 > t.beginSeq && c.2.any (fun e => t.modified.contains e))
+      | none => false
+    let sr := if st.isNone then "err:invalid" else if conflict then "err:conflict" else "ok"
     let committed' := match st, r with
       | some t, .ok => t.writes.foldl SGraph.apply z.committed
       | _, _ => z.committed
-    pure ({ z with w := w', committed := committed', txs := aset z.txs k none }, mk' (rStr r) sr "commit-result")
+    let (seq', commits') := match st, r with
+      | some t, .ok => (z.seq + 1, (z.seq + 1, t.modified) :: z.commits)
+      | _, _ => (z.seq, z.commits)
+    let aborted' := match st, r with
+      | some _, .ok => z.abortedTouched
+      | some t, _ => z.abortedTouched ++ t.touchedKeys
+      | none, _ => z.abortedTouched
+    pure ({ z with w := w', committed := committed', txs := aset z.txs k none, seq := seq', commits := commits',
+                   abortedTouched := aborted' },
+          mk' (rStr r) sr (if rStr r == "ok" && conflict then "lost-update-accepted-at-session" else "commit-result"))
   | ["rollback", k] => do
     let k ← k.toNat?
     let (w', r) := z.w.rollback k
     let st := (aget z.txs k).getD none
-    pure ({ z with w := w', txs := aset z.txs k none }, mk' (rStr r) (if st.isSome then "ok" else "err:invalid") "rollback-result")
+    let aborted' := match st with | some t => z.abortedTouched ++ t.touchedKeys | none => z.abortedTouched
+    pure ({ z with w := w', txs := aset z.txs k none, abortedTouched := aborted' },
+          mk' (rStr r) (if st.isSome then "ok" else "err:invalid") "rollback-result")
   | ["cn", k, ls] => do
     let k ← k.toNat?
     let ls ← parseNatList ls
@@ -128,26 +214,67 @@ def handle (z : St) (args : List String) : Option (St × Proto.Out) :=
     let vis := (z.w.scanAll k).contains s
     let specVis := (aget (z.view k).nodes s).isSome
     if vis then
-      let (w1, b) := z.w.createNode k [l]
-      let (w2, e) := w1.createEdge k s b t
+      let (w2, b, e) := z.w.createNodeAndEdge k s l t
       let ws := [W.node b [l], W.edge e ⟨s, b, t⟩]
       let z' := match (aget z.txs k).getD none with
         | some tx => { z with w := w2, txs := aset z.txs k (some { tx with writes := tx.writes ++ ws }) }
         | none => { z with w := w2, committed := ws.foldl SGraph.apply z.committed }
       let m := s!"I{b}.I{e}"
-      pure (z', mk' m (if specVis then m else "norows") (classifyExtra z k s))
+      pure (z', mk' m (if specVis then m else "norows") (if z.touched.contains (2 * s) then inPlaceSig z (2 * s) else classifyExtra z k s))
     else
-      pure (z, mk' "norows" (if specVis then "created" else "norows") "committed-entity-not-enumerated")
+      pure (z, mk' "norows" (if specVis then "created" else "norows")
+        (if z.touched.contains (2 * s) then inPlaceSig z (2 * s) else "committed-entity-not-enumerated"))
+  -- `MATCH (n) WHERE id(n) = x SET n.k<key> = v RETURN id(n)`
+  | ["qset", k, id, key, v] => do
+    let k ← k.toNat?
+    let id ← id.toNat?
+    let key ← key.toNat?
+    let (w', mm) := z.w.qSetProp k id key v
+    pure (inPlaceOp z k (2 * id) w' mm (aget (z.view k).nodes id).isSome (.setProp id key v) (toString id))
+  | ["qlab", k, id, l] => do
+    let k ← k.toNat?
+    let id ← id.toNat?
+    let l ← l.toNat?
+    let (w', mm) := z.w.qAddLabel k id l
+    pure (inPlaceOp z k (2 * id) w' mm (aget (z.view k).nodes id).isSome (.addLabel id l) "ok")
+  | ["qunlab", k, id, l] => do
+    let k ← k.toNat?
+    let id ← id.toNat?
+    let l ← l.toNat?
+    let (w', mm) := z.w.qRemoveLabel k id l
+    pure (inPlaceOp z k (2 * id) w' mm (aget (z.view k).nodes id).isSome (.remLabel id l) "ok")
+  -- `MATCH (n) WHERE id(n) = x DETACH DELETE n`
+  | ["qdel", k, id] => do
+    let k ← k.toNat?
+    let id ← id.toNat?
+    let (w', mm) := z.w.qDetachDelete k id
+    pure (inPlaceOp z k (2 * id) w' mm (aget (z.view k).nodes id).isSome (.delNode id) "ok")
+  -- `MATCH (a)-[e]->(b) WHERE id(e) = x DELETE e`
+  | ["qdele", k, e] => do
+    let k ← k.toNat?
+    let e ← e.toNat?
+    let (w', mm) := z.w.qDeleteEdge k e
+    let v := z.view k
+    let sm := match aget v.edges e with
+      | some r => (aget v.nodes r.src).isSome && (aget v.nodes r.dst).isSome
+      | none => false
+    -- an endpoint deleted in place hides the edge from the match
+    let key := match aget v.edges e with
+      | some r => if z.touched.contains (2 * r.src) then 2 * r.src else if z.touched.contains (2 * r.dst) then 2 * r.dst else 2 * e + 1
+      | none => 2 * e + 1
+    let (z', out) := inPlaceOp z k (2 * e + 1) w' mm sm (.delEdge e) "ok"
+    pure (z', if out.sig == "committed-entity-not-enumerated" && z.touched.contains key then { out with sig := inPlaceSig z key } else out)
   | ["dbcn", ls] => do
     let ls ← parseNatList ls
-    let (s', id) := z.w.store.createNode ls z.w.store.epoch systemTx
-    pure ({ z with w := { z.w with store := s' }, committed := z.committed.apply (.node id ls) }, { model := toString id })
+    let (w', id) := z.w.dbCreateNode ls
+    pure ({ z with w := w', committed := z.committed.apply (.node id ls) }, { model := toString id })
   | ["gn", k, id] => do
     let k ← k.toNat?
     let id ← id.toNat?
     let m := z.w.getNode k id
     let s := aget (z.view k).nodes id
-    let sig := if m.isSome && s.isNone then classifyExtra z k id
+    let sig := if z.touched.contains (2 * id) then inPlaceSig z (2 * id)
+      else if m.isSome && s.isNone then classifyExtra z k id
       else if m.isNone && s.isSome then "committed-entity-invisible" else "node-content"
     pure (z, mk' (showNode m) (showNode s) sig)
   | ["ge", k, id] => do
@@ -155,16 +282,23 @@ def handle (z : St) (args : List String) : Option (St × Proto.Out) :=
     let id ← id.toNat?
     let m := z.w.getEdge k id
     let s := (aget (z.view k).edges id).map (fun r => (r, ([] : AList String)))
-    pure (z, mk' (showEdge m) (showEdge s) (if m.isSome && s.isNone then "edge-visible-outside-snapshot" else "edge-invisible"))
+    pure (z, mk' (showEdge m) (showEdge s) (if z.touched.contains (2 * id + 1) then inPlaceSig z (2 * id + 1)
+      else if m.isSome && s.isNone then "edge-visible-outside-snapshot" else "edge-invisible"))
   | ["out", k, n] => do
     let k ← k.toNat?
     let n ← n.toNat?
     let m := z.w.outgoing k n
     let v := z.view k
-    let s := (v.edges.filter (fun kv => kv.2.src == n)).map (fun kv => (kv.2.dst, kv.1))
+    -- an edge whose far endpoint is not (or no longer) part of the view is no neighbour listing entry
+    let s := ((v.edges.filter (fun kv => kv.2.src == n)).filter (fun kv => (aget v.nodes kv.2.dst).isSome)).map (fun kv => (kv.2.dst, kv.1))
     -- whose edge is the first extra entry?
     let extra := m.filter (fun p => !s.contains p)
-    let sig := match extra with
+    let missing := s.filter (fun p => !m.contains p)
+    let sig := if z.touched.contains (2 * n) && !(extra ++ missing).isEmpty then inPlaceSig z (2 * n) else
+      match (extra ++ missing).find? (fun p => z.touched.contains (2 * p.2 + 1) || z.touched.contains (2 * p.1)) with
+      | some p => inPlaceSig z (if z.touched.contains (2 * p.2 + 1) then 2 * p.2 + 1 else 2 * p.1)
+      | none =>
+      match extra with
       | (_, e) :: _ =>
         match aget z.w.store.edges e with
         | some (v :: _, _) =>
@@ -190,9 +324,12 @@ def handle (z : St) (args : List String) : Option (St × Proto.Out) :=
     let s := (z.view k).nodes.map (·.1)
     pure (z, mk' (showIds m) (showIds s) (sigIds z k m s))
   | ["count"] =>
-    let m := z.w.store.nodeIds.length
+    let m := z.w.store.nodeCount
     let s := z.committed.nodes.length
-    some (z, mk' (toString m) (toString s) (if m < s then "committed-entity-not-enumerated" else "count-includes-uncommitted"))
+    -- fewer than committed: only an in-place deletion can hide a committed node from the count
+    let fewer := if z.touched.any (fun key => z.abortedTouched.contains key) then "rolled-back-change-persists"
+      else if !z.touched.isEmpty then "in-place-change-outside-transaction" else "committed-entity-not-enumerated"
+    some (z, mk' (toString m) (toString s) (if m < s then fewer else "count-includes-uncommitted"))
   | _ => none
 
 end Grafeo.DriverSess
